@@ -110,7 +110,7 @@ def eq_set(a, b):
 for k, ml, tier, tmo in ((1, 3, "quick", 120), (2, 3, "quick", 600), (3, 2, "quick", 900), (3, 3, "thorough", 3000),
                          (4, 1, "thorough", 3000), (2, 4, "thorough", 3000)):
     REG.add("annotate_k%d_len%d" % (k, ml), T_c14, body, cfg=dict(k=k, maxlen=ml), tier=tier, timeout=tmo,
-            tags=(["different_lengths", "tie_fastest"] if k > 1 else []), twins=2,
+            tags=((["different_lengths"] if ml > 1 else []) + ["tie_fastest"] if k > 1 else []), twins=2,
             bounds="%d path(s), each of 1..%d hops (symbolic), unbounded symbolic integer hop times" % (k, ml),
             what="'shortest'/'fastest'/'foremost' equal (as lists, input order) the paths with fewest hops / minimal last-first "
                  "time / earliest arrival; 'fastest_shortest' and 'shortest_fastest' equal (as duplicate-free sets) the minimal-"
